@@ -232,29 +232,29 @@ func c13R3(c *Ctx) {
 	fn := rg.read
 	name := FuncName(fn)
 	var opens []*ssa.Store
-	ForEachInstr(fn, func(in ssa.Instruction) {
-		st, ok := in.(*ssa.Store)
-		if !ok {
-			return
-		}
-		fa, ok := st.Addr.(*ssa.FieldAddr)
-		if !ok || derefStruct(fa.X.Type()).Field(fa.Field) != rg.fGroups {
-			return
-		}
-		if ai := asAppend(st.Val); ai != nil && p.Origin(ai.Base).IsField(rg.fGroups) {
-			opens = append(opens, st)
-		}
-	})
+	var stores []*ssa.MapUpdate
+	for _, f := range p.readerFamily(fn) {
+		ForEachInstr(f, func(in ssa.Instruction) {
+			if mu, ok := in.(*ssa.MapUpdate); ok {
+				stores = append(stores, mu)
+			}
+			st, ok := in.(*ssa.Store)
+			if !ok {
+				return
+			}
+			fa, ok := st.Addr.(*ssa.FieldAddr)
+			if !ok || derefStruct(fa.X.Type()).Field(fa.Field) != rg.fGroups {
+				return
+			}
+			if ai := asAppend(st.Val); ai != nil && p.Origin(ai.Base).IsField(rg.fGroups) {
+				opens = append(opens, st)
+			}
+		})
+	}
 	if len(opens) == 0 {
 		c.Violation(name, p.Pos(fn.Pos()), "no-entry-open", "the group reader never appends an entry")
 		return
 	}
-	var stores []*ssa.MapUpdate
-	ForEachInstr(fn, func(in ssa.Instruction) {
-		if mu, ok := in.(*ssa.MapUpdate); ok {
-			stores = append(stores, mu)
-		}
-	})
 	for _, st := range opens {
 		d := p.ReachCond(st.Block())
 		okDelim := d.Implies(func(a *Atom) bool {
@@ -269,6 +269,13 @@ func c13R3(c *Ctx) {
 		c.Check(okDelim, name, p.InstrPos(st), "entry-at-delimiter", "a new entry is opened only under the delimiter test (first template item)",
 			"a new entry is opened under "+d.String()+", which does not test the item against the first template item: entries are cut at the wrong field")
 		for _, mu := range stores {
+			if mu.Parent() != st.Parent() {
+				// opened and stored in different functions of the reader: order them by their calls in the reader
+				a, b := p.callIn(fn, st.Parent()), p.callIn(fn, mu.Parent())
+				okCross := a != nil && b != nil && reaches(a.Block(), b.Block()) && !InstrDominates(b, a) || st.Parent() == fn && b != nil && reaches(st.Block(), b.Block()) || mu.Parent() == fn && a != nil && reaches(a.Block(), mu.Block())
+				c.Check(okCross, name, p.InstrPos(mu), "open-before-store", "the entry is opened before the member is stored", "the member is stored before the new entry is opened: the delimiter field lands in the previous entry")
+				continue
+			}
 			okOrder := !reaches(mu.Block(), st.Block()) || reaches(st.Block(), mu.Block()) && !InstrDominates(mu, st)
 			okBefore := reaches(st.Block(), mu.Block()) && !InstrDominates(mu, st)
 			c.Check(okOrder && okBefore, name, p.InstrPos(mu), "open-before-store", "the entry is opened before the member is stored", "the member is stored before the new entry is opened: the delimiter field lands in the previous entry")
@@ -293,6 +300,35 @@ func c13R4(c *Ctx) {
 		return
 	}
 	n := 0
+	for _, f := range p.readerFamily(fn) {
+		if f == fn {
+			continue
+		}
+		// a helper: the stored window is a parameter; at the helper's call in the reader the argument is the item's window
+		ForEachInstr(f, func(in ssa.Instruction) {
+			mu, ok := in.(*ssa.MapUpdate)
+			if !ok {
+				return
+			}
+			n++
+			par, isPar := stripConv(mu.Value).(*ssa.Parameter)
+			okWin := false
+			if isPar {
+				for i, q := range f.Params {
+					if q == par {
+						if cl := p.callIn(fn, f); cl != nil && i < len(cl.Common().Args) {
+							okWin = stripConv(cl.Common().Args[i]) == stripConv(item.Common().Args[0])
+						}
+					}
+				}
+			}
+			c.Check(okWin, FuncName(f), p.InstrPos(mu), "window-before-read", "the stored window is the one the item was given (captured before it consumed its fields)",
+				"the member is stored with "+p.Origin(mu.Value).String()+", which is not the window the item started reading from")
+			ko := p.Origin(mu.Key)
+			okKey := ko.Kind == "field" && ko.Base != nil && ko.Base.Kind == "index" && ko.Base.Y.IsConstInt(0) && ko.Base.Base != nil && ko.Base.Base.Val != nil && isPar && stripConv(ko.Base.Base.Val) == ssa.Value(par)
+			c.Check(okKey, FuncName(f), p.InstrPos(mu), "key-is-first-tag", "stored under the tag of the window's first field", "the member is stored under "+ko.String()+", not under the tag of the first field of its window")
+		})
+	}
 	ForEachInstr(fn, func(in ssa.Instruction) {
 		mu, ok := in.(*ssa.MapUpdate)
 		if !ok {
@@ -687,4 +723,46 @@ func c13R7(c *Ctx) {
 		c.Check(ok, name, p.InstrPos(pred.Instrs[len(pred.Instrs)-1]), "path-and-definitions-in-step", "tag path and member definitions change together",
 			"on this way round the loop the member definitions become "+p.Origin(fieldsPhi.Edges[i]).String()+" while the tag path becomes "+p.Origin(tagsPhi.Edges[i]).String()+": the definitions are not those of the path, so nested groups are looked up under the wrong parent (members of a nested group are filed as body fields, or a following field is taken for a member)")
 	}
+}
+
+// readerFamily: the group reader and the unexported methods of the same receiver type it calls
+// directly (helpers a refactoring may have extracted from it).
+func (p *Prog) readerFamily(fn *ssa.Function) []*ssa.Function {
+	out := []*ssa.Function{fn}
+	for _, cl := range Calls(fn) {
+		cal := cl.Common().StaticCallee()
+		if cal == nil || cal == fn || !p.InModule(cal) || cal.Signature.Recv() == nil || fn.Signature.Recv() == nil {
+			continue
+		}
+		if typeName(cal.Signature.Recv().Type()) != typeName(fn.Signature.Recv().Type()) || cal.Object() == nil || cal.Object().Exported() {
+			continue
+		}
+		has := false
+		ForEachInstr(cal, func(in ssa.Instruction) {
+			switch x := in.(type) {
+			case *ssa.MapUpdate:
+				if mt, ok := x.Map.Type().Underlying().(*types.Map); ok && typeName(sliceElem(mt.Elem())) == "TagValue" {
+					has = true
+				}
+			case *ssa.Store:
+				if fa, ok := x.Addr.(*ssa.FieldAddr); ok && typeName(fa.X.Type()) == typeName(fn.Signature.Recv().Type()) {
+					has = true
+				}
+			}
+		})
+		if has {
+			out = appendFn(out, cal)
+		}
+	}
+	return out
+}
+
+// callIn: the (first) static call of callee inside fn.
+func (p *Prog) callIn(fn, callee *ssa.Function) ssa.CallInstruction {
+	for _, cl := range Calls(fn) {
+		if cl.Common().StaticCallee() == callee {
+			return cl
+		}
+	}
+	return nil
 }
